@@ -331,7 +331,8 @@ class OperandNode(ASTNode):
             value = self.value
             if value.startswith('"') and value.endswith('"'):
                 value = value[1:-1]
-            value = value.replace('""', r'\"')
+            value = (value.replace('\\', '\\\\').replace('""', r'\"')
+                     .replace('\n', '\\n').replace('\r', '\\r'))
             return f'"{value}"'
 
         else:
